@@ -273,8 +273,8 @@ def exact_length_summary(ctx: Ctx, fn: FuncInfo) -> bool:
     req = fn.params[1]
     for n in own_nodes(fn.node):
         if isinstance(n, ast.If) and any(isinstance(s, ast.Raise) for s in n.body):
-            t = n.test
-            if isinstance(t, ast.Compare) and isinstance(t.ops[0], ast.NotEq):
+            t = defs.expand(n.test, stop=[out])
+            if isinstance(t, ast.Compare) and len(t.ops) == 1 and isinstance(t.ops[0], ast.NotEq):
                 sides = {norm(t.left), norm(t.comparators[0])}
                 if sides == {f"len({out})", f"len({req})"}:
                     # no mutation of OUT after the check
